@@ -97,6 +97,19 @@ v('C07', 'fire', KA, 'cho_solve((L, True), HP', 'cho_solve((L, False), HP')
 v('C07', 'fire', KA, 'S = HP @ H.T + R', 'S = HP @ H.T')
 v('C07 C19', 'fire', KA, 'K = cho_solve((L, True), HP, overwrite_b=True).T', 'K = cho_solve((L, True), P, overwrite_b=True).T')
 v('C07', 'silent', KA, 'U = np.eye(len(x)) - K.dot(H)', 'U = np.identity(len(x)) - K @ H')
+v('C06 C19', 'fire', 'error_model.py',
+  ["    def _transform_3d_2d(self, VN, VE):",
+   "        result = np.zeros((3, 9))\n        result[:, self.DR] = np.eye(3)\n        if imu_to_antenna_b is not None:\n            mat_nb = transform.mat_from_rph(pva[RPH_COLS])\n            result[:, self.PHI]"],
+  ["    POSITION_JACOBIAN_3D = np.hstack([np.eye(3), np.zeros((3, 6))])\n\n    def _transform_3d_2d(self, VN, VE):",
+   "        result = self.POSITION_JACOBIAN_3D\n        if imu_to_antenna_b is not None:\n            mat_nb = transform.mat_from_rph(pva[RPH_COLS])\n            result[:, self.PHI]"],
+  'seeded C06 round 2: position Jacobian built in a shared class-level buffer')
+v('C08 C10 C11', 'fire', 'filters.py', """        if next_index == index:
+            next_index += 1
+        next_time = times[next_index]
+        time_delta = next_time - time""", """        next_time = times[next_index]
+        if next_index == index:
+            next_index += 1
+        time_delta = next_time - time""", 'seeded C08/C10 round 2: interval end read before the progress guard adjusts the cursor')
 _KOLD = """    L = cholesky(S, lower=True)
     K = cho_solve((L, True), HP, overwrite_b=True).T
     U = np.eye(len(x)) - K.dot(H)
@@ -369,11 +382,14 @@ def _run_variant(args):
             p = os.path.join(dst, var['file'])
             with open(p) as fh:
                 s = fh.read()
-            if var['old'] not in s:
+            olds = var['old'] if isinstance(var['old'], list) else [var['old']]
+            news = var['new'] if isinstance(var['new'], list) else [var['new']]
+            if any(o not in s for o in olds):
                 return ('skipped', None, '')
+            for o, n_ in zip(olds, news):
+                s = s.replace(o, n_) if var.get('every') else s.replace(o, n_, 1)
             with open(p, 'w') as fh:
-                fh.write(s.replace(var['old'], var['new']) if var.get('every')
-                         else s.replace(var['old'], var['new'], 1))
+                fh.write(s)
         out = os.path.join(d, 'findings.json')
         r = subprocess.run([sys.executable, '-I', check_py, prop, '--root', d, '--no-evidence',
                             '--tier', 'quick', '--findings', out], capture_output=True,
@@ -404,7 +420,7 @@ def run(ctx):
     n_fire = n_silent = n_skip = 0
     for var, (rc, ids, tail) in zip(mine, res[1:]):
         row = dict(kind=var['kind'], file=var['file'], note=var['note'],
-                   edit=(var['old'][:60] + ' -> ' + var['new'][:60]).replace('\n', ' '))
+                   edit=(str(var['old'])[:60] + ' -> ' + str(var['new'])[:60]).replace('\n', ' '))
         if rc == 'skipped':
             row['result'] = 'skipped (anchor text not present in the current tree)'
             n_skip += 1
